@@ -250,3 +250,24 @@ def decide_formula(rep, rule, w, got, ref, what, make_point=None):
             "they agree at %d generic rational points, which proves nothing" % res[1] if res[0] == "agree" else "not evaluable: %s" % res[1]))
         return
     rep.unk(rule, w, "%s has a different inverse structure: %s vs %s" % (what, MN.show(got)[:160], MN.show(ref)[:160]))
+
+
+FLOAT_TYPES = {("extref", "float"), ("extref", "numpy.float64"), ("extref", "numpy.float_"), ("extref", "numpy.double"), ("const", "float"),
+               ("const", "float64"), ("extref", "numpy.longdouble"), ("extref", "complex"), ("extref", "numpy.complex128")}
+
+
+def lossy_casts(term):
+    """casts of numeric data to a dtype that is not floating point (integer, bool, or 'whatever dtype another
+    array happens to have'): fractional values are truncated silently"""
+    out = []
+    for x in walk(term):
+        if not isinstance(x, tuple) or not x:
+            continue
+        d = None
+        if x[0] == "method" and x[2] == "astype" and x[3]:
+            d = x[3][0]
+        elif x[0] == "ext" and x[1] in ("numpy.array", "numpy.asarray", "numpy.asanyarray", "numpy.atleast_1d", "numpy.full", "numpy.zeros", "numpy.empty"):
+            d = dict((k, v) for k, v in x[3] if k != "$draw").get("dtype")
+        if d is not None and d not in FLOAT_TYPES:
+            out.append((x, d))
+    return out
